@@ -9,6 +9,12 @@
 //! through the wrapper from inside a forwarded call (`n`); free-running rounds without the scheduler
 //! (`recover free …`); a long-held emission against a spinning `into_inner`; the real
 //! `RecoverableRecorder::install` (success once per process, then failing installs) with the `metrics` macros.
+//!
+//! Round 5: callers KEEP the Counter / Gauge / Histogram handles they got through the wrapper (`k`), write through
+//! them (`u`) and drop them (`x`) at any point relative to the end of the recorder's life; the kept handles are
+//! part of the model state (`Thread.kept`). `into_inner` is waited for with a bound and a miss is a violation of
+//! its own ("did not return although no emission was executing"), end-of-round measurements are taken while the
+//! handles are still held, then one more emission is made, then they are dropped (which must finalise nothing).
 
 use crate::sched;
 use crate::util::*;
@@ -45,6 +51,68 @@ thread_local! {
     static IS_ENDER: Cell<bool> = Cell::new(false);
     /// stress rounds: the recorder double skips its own bookkeeping of arguments (tight emission loops)
     static LIGHT: Cell<bool> = Cell::new(false);
+    /// the next `do_emit` of a register_* method on this thread hands the handle it got through the wrapper out
+    /// through `KEPT_OUT` instead of dropping it at the end of the emitting statement
+    static KEEP_NEXT: Cell<bool> = Cell::new(false);
+    static KEPT_OUT: RefCell<Option<Kept>> = RefCell::new(None);
+}
+
+/// a metric handle obtained through the wrapper that the caller keeps (`let c = counter!(..)`)
+enum Kept {
+    C(Counter),
+    G(Gauge),
+    H(Histogram),
+}
+impl Kept {
+    fn kind(&self) -> usize {
+        match self {
+            Kept::C(_) => 0,
+            Kept::G(_) => 1,
+            Kept::H(_) => 2,
+        }
+    }
+    fn write(&self, v: u64) {
+        match self {
+            Kept::C(h) => h.increment(v),
+            Kept::G(h) => h.increment(v as f64),
+            Kept::H(h) => h.record(v as f64),
+        }
+    }
+}
+/// the kept handles of one thread; they live in the round (not on the thread's stack) so that the end-of-round
+/// measurements are taken while they are still held
+type KeptStore = Arc<Mutex<Vec<KeptH>>>;
+struct KeptH {
+    h: Kept,
+    /// the registration that produced the handle reached the recorder (the handle was live when obtained)
+    live: bool,
+}
+
+/// Writes through every kept handle of thread `t` (whose cells only `t` touches) and counts how many writes
+/// landed in the recorder's storage (live) and how many nowhere (inert); `Err` = a write landed somewhere else.
+fn use_kept(store: &KeptStore, sh: &Arc<Shared>, t: usize, val: u64) -> Result<(usize, usize), String> {
+    let kept = store.lock().unwrap();
+    let (mut live, mut inert) = (0, 0);
+    for (i, kh) in kept.iter().enumerate() {
+        let h = &kh.h;
+        let snap = || [0usize, 1, 2].map(|k| sh.cells[t][k].0.load(Ordering::SeqCst));
+        let b = snap();
+        h.write(val);
+        let a = snap();
+        let d = [a[0].wrapping_sub(b[0]), a[1].wrapping_sub(b[1]), a[2].wrapping_sub(b[2])];
+        let mut want = [0u64; 3];
+        want[h.kind()] = val;
+        if d == want && kh.live {
+            live += 1;
+        } else if d == [0, 0, 0] && !kh.live {
+            inert += 1;
+        } else if d == want || d == [0, 0, 0] {
+            return Err(format!("kept handle {} (kind {}) was {} when obtained and is {} now", i, h.kind(), if kh.live { "live" } else { "inert" }, if kh.live { "inert" } else { "live" }));
+        } else {
+            return Err(format!("kept handle {} (kind {}) moved the cells by {:?}", i, h.kind(), d));
+        }
+    }
+    Ok((live, inert))
 }
 
 /// the storage behind the handles the recorder double hands out
@@ -270,19 +338,31 @@ fn do_emit(w: &dyn Recorder, em: &Em, sh: &Arc<Shared>, t: usize, mode: u8, nest
                 let h = w.register_counter(&key, meta);
                 let b = snap();
                 h.increment(em.val);
-                delta(0, b, snap())
+                let d = delta(0, b, snap());
+                if KEEP_NEXT.with(|k| k.replace(false)) {
+                    KEPT_OUT.with(|k| *k.borrow_mut() = Some(Kept::C(h)));
+                }
+                d
             }
             4 => {
                 let h = w.register_gauge(&key, meta);
                 let b = snap();
                 h.increment(em.val as f64);
-                delta(1, b, snap())
+                let d = delta(1, b, snap());
+                if KEEP_NEXT.with(|k| k.replace(false)) {
+                    KEPT_OUT.with(|k| *k.borrow_mut() = Some(Kept::G(h)));
+                }
+                d
             }
             2 => {
                 let h = w.register_histogram(&key, meta);
                 let b = snap();
                 h.record(em.val as f64);
-                delta(2, b, snap())
+                let d = delta(2, b, snap());
+                if KEEP_NEXT.with(|k| k.replace(false)) {
+                    KEPT_OUT.with(|k| *k.borrow_mut() = Some(Kept::H(h)));
+                }
+                d
             }
             1 => {
                 w.describe_gauge(KeyName::from(em.name.clone()), unit, SharedString::from(em.desc.clone()));
@@ -300,6 +380,7 @@ fn do_emit(w: &dyn Recorder, em: &Em, sh: &Arc<Shared>, t: usize, mode: u8, nest
     }));
     MODE.with(|m| m.set(0));
     NEST.with(|n| *n.borrow_mut() = None);
+    KEEP_NEXT.with(|k| k.set(false));
     let mine = ARRIVED.with(|a| {
         let mut a = a.borrow_mut();
         let x = a.get(depth).cloned();
@@ -336,6 +417,21 @@ fn do_emit(w: &dyn Recorder, em: &Em, sh: &Arc<Shared>, t: usize, mode: u8, nest
 }
 
 static MISROUTED: Mutex<Vec<String>> = Mutex::new(vec![]);
+static KEPT_ERR: Mutex<Vec<String>> = Mutex::new(vec![]);
+/// rounds in which `into_inner` was found stuck (each costs its bounded wait: the phases stop after a few)
+static STUCK_ROUNDS: AtomicUsize = AtomicUsize::new(0);
+
+/// `do_emit` of a register_* method whose returned handle is KEPT in `store` (used once right away like every
+/// handle, which tells whether it is live or inert) instead of being dropped at the end of the statement
+fn do_emit_keep(w: &dyn Recorder, em: &Em, sh: &Arc<Shared>, t: usize, store: &KeptStore) -> &'static str {
+    KEPT_OUT.with(|k| *k.borrow_mut() = None);
+    KEEP_NEXT.with(|k| k.set(true));
+    let r = do_emit(w, em, sh, t, 0, None);
+    if let Some(h) = KEPT_OUT.with(|k| k.borrow_mut().take()) {
+        store.lock().unwrap().push(KeptH { h, live: r == "delivered" });
+    }
+    r
+}
 
 #[derive(Clone, Copy, Debug, PartialEq)]
 enum Call {
@@ -344,10 +440,19 @@ enum Call {
     DropHandle,
     EmitPanic,
     EmitNested,
+    /// a register_* through the wrapper whose returned handle the thread keeps
+    EmitKeep,
+    /// write through every kept handle
+    UseKept,
+    /// drop every kept handle
+    DropKept,
 }
 impl Call {
     fn is_emission(self) -> bool {
-        matches!(self, Call::Emit | Call::EmitPanic | Call::EmitNested)
+        matches!(self, Call::Emit | Call::EmitPanic | Call::EmitNested | Call::EmitKeep)
+    }
+    fn is_end(self) -> bool {
+        matches!(self, Call::IntoInner | Call::DropHandle)
     }
 }
 
@@ -358,11 +463,12 @@ struct Step {
     nested: Option<Em>,
 }
 fn st(call: Call, r: &mut Rng) -> Step {
-    Step {
-        call,
-        em: if call.is_emission() { Some(gen_em(r)) } else { None },
-        nested: if call == Call::EmitNested { Some(gen_em(r)) } else { None },
+    let mut em = if call.is_emission() || call == Call::UseKept { Some(gen_em(r)) } else { None };
+    if call == Call::EmitKeep {
+        // only the register_* methods return a handle
+        em.as_mut().unwrap().method = *r.pick(&[0usize, 2, 4]);
     }
+    Step { call, em, nested: if call == Call::EmitNested { Some(gen_em(r)) } else { None } }
 }
 
 fn prog_tok(p: &[Step]) -> String {
@@ -376,6 +482,9 @@ fn prog_tok(p: &[Step]) -> String {
             Call::DropHandle => "d",
             Call::EmitPanic => "p",
             Call::EmitNested => "n",
+            Call::EmitKeep => "k",
+            Call::UseKept => "u",
+            Call::DropKept => "x",
         })
         .collect::<Vec<_>>()
         .join("+")
@@ -406,6 +515,21 @@ struct Outcome {
     misrouted: Vec<String>,
     unfinished: bool,
     run: sched::RunResult,
+    /// the round did not finish and the only threads not finished sit in `into_inner` while no emission is
+    /// executing: (inside count, metric handles kept by the threads at that moment)
+    stuck_into_inner: Option<(usize, usize)>,
+    /// metric handles still kept by the threads when the round was over
+    kept_at_end: usize,
+    /// the recovery handle's life was ended in the round (into_inner began / the handle was dropped)
+    handle_ended: bool,
+    /// every thread ran its program to the end
+    all_done: bool,
+    /// one more emission through the wrapper by the harness after all threads were done, kept handles still held
+    post_emit: Option<&'static str>,
+    /// a write through the kept handles after all threads were done: Ok((live, inert))
+    post_use: Vec<Result<(usize, usize), String>>,
+    /// destructor runs of the recorder caused by dropping the kept handles at the very end
+    finalised_by_dropping_kept: usize,
 }
 impl Outcome {
     fn results(&self) -> Vec<Vec<String>> {
@@ -440,7 +564,12 @@ fn execute(progs: &[Vec<Step>], schedule: Option<&[usize]>) -> Outcome {
     let tick = Arc::new(AtomicU64::new(1));
     let barrier = Arc::new(Barrier::new(progs.len()));
     let free = schedule.is_none();
+    let stores: Vec<KeptStore> = (0..progs.len()).map(|_| Arc::new(Mutex::new(vec![]))).collect();
+    // thread t is inside `into_inner` right now (bit t)
+    let in_into_inner = Arc::new(AtomicUsize::new(0));
+    let handle_ended = Arc::new(AtomicBool::new(false));
     MISROUTED.lock().unwrap().clear();
+    KEPT_ERR.lock().unwrap().clear();
     let mut bodies: Vec<Box<dyn FnOnce() + Send + 'static>> = vec![];
     for (t, prog) in progs.iter().enumerate() {
         let prog = prog.clone();
@@ -454,6 +583,9 @@ fn execute(progs: &[Vec<Step>], schedule: Option<&[usize]>) -> Outcome {
         let busy = busy.clone();
         let tick = tick.clone();
         let barrier = barrier.clone();
+        let store = stores[t].clone();
+        let in_into_inner = in_into_inner.clone();
+        let handle_ended = handle_ended.clone();
         bodies.push(Box::new(move || {
             TIDX.with(|x| x.set(t));
             ARRIVED.with(|a| a.borrow_mut().clear());
@@ -462,9 +594,29 @@ fn execute(progs: &[Vec<Step>], schedule: Option<&[usize]>) -> Outcome {
             }
             for c in prog {
                 let mut rec = CallRec { t_start: tick.fetch_add(1, Ordering::SeqCst), ..Default::default() };
+                let used: String;
                 let r: &str = match c.call {
                     Call::Emit => do_emit(&*wrapped, c.em.as_ref().unwrap(), &sh, t, 0, None),
                     Call::EmitPanic => do_emit(&*wrapped, c.em.as_ref().unwrap(), &sh, t, 1, None),
+                    Call::EmitKeep => do_emit_keep(&*wrapped, c.em.as_ref().unwrap(), &sh, t, &store),
+                    Call::UseKept => {
+                        metrics::verif::point("k.use");
+                        used = match use_kept(&store, &sh, t, c.em.as_ref().unwrap().val) {
+                            Ok((live, inert)) => format!("used-{}-{}", live, inert),
+                            Err(e) => {
+                                KEPT_ERR.lock().unwrap().push(e);
+                                "used-misrouted".to_string()
+                            }
+                        };
+                        &used
+                    }
+                    Call::DropKept => {
+                        metrics::verif::point("k.drop");
+                        let hs: Vec<KeptH> = std::mem::take(&mut *store.lock().unwrap());
+                        used = format!("kept-dropped-{}", hs.len());
+                        drop(hs);
+                        &used
+                    }
                     Call::EmitNested => {
                         NEST_RESULT.with(|x| *x.borrow_mut() = None);
                         let r = do_emit(&*wrapped, c.em.as_ref().unwrap(), &sh, t, 2, Some((wrapped.clone(), c.nested.clone().unwrap(), sh.clone())));
@@ -473,8 +625,12 @@ fn execute(progs: &[Vec<Step>], schedule: Option<&[usize]>) -> Outcome {
                     }
                     Call::IntoInner => {
                         let h = handle.lock().unwrap().take();
-                        match h {
-                            Some(h) => match std::panic::catch_unwind(std::panic::AssertUnwindSafe(move || h.into_inner())) {
+                        handle_ended.store(true, Ordering::SeqCst);
+                        in_into_inner.fetch_or(1 << t, Ordering::SeqCst);
+                        let res = h.map(|h| std::panic::catch_unwind(std::panic::AssertUnwindSafe(move || h.into_inner())));
+                        in_into_inner.fetch_and(!(1 << t), Ordering::SeqCst);
+                        match res {
+                            Some(res) => match res {
                                 Ok(rec) => {
                                     if sh.inside.load(Ordering::SeqCst) > 0 {
                                         busy.store(true, Ordering::SeqCst);
@@ -498,6 +654,7 @@ fn execute(progs: &[Vec<Step>], schedule: Option<&[usize]>) -> Outcome {
                     Call::DropHandle => {
                         metrics::verif::point("h.drop");
                         let h = handle.lock().unwrap().take();
+                        handle_ended.store(true, Ordering::SeqCst);
                         drop(h);
                         "dropped"
                     }
@@ -516,7 +673,21 @@ fn execute(progs: &[Vec<Step>], schedule: Option<&[usize]>) -> Outcome {
             // watchdog: a correct into_inner returns as soon as the (finite) emitters are done; 20 s is three
             // orders of magnitude above the expected round time
             let t0 = Instant::now();
+            // bounded wait for `into_inner`: once every thread that is not inside `into_inner` has finished, nothing
+            // is executing in the recorder and the very next `Arc::try_unwrap` succeeds (theorem
+            // into_inner_returns_despite_kept_handles) — microseconds; 5 s of this state, during which nothing else
+            // runs in the round, is a margin of six orders of magnitude
+            let mut quiet_since: Option<Instant> = None;
             while hs.iter().any(|h| !h.is_finished()) && t0.elapsed() < Duration::from_secs(20) {
+                let mask = in_into_inner.load(Ordering::SeqCst);
+                let only_enders = hs.iter().enumerate().all(|(t, h)| h.is_finished() || mask & (1 << t) != 0);
+                if only_enders {
+                    if quiet_since.get_or_insert_with(Instant::now).elapsed() > Duration::from_secs(5) {
+                        break;
+                    }
+                } else {
+                    quiet_since = None;
+                }
                 std::thread::sleep(Duration::from_micros(50));
             }
             let mut panicked = vec![];
@@ -533,11 +704,55 @@ fn execute(progs: &[Vec<Step>], schedule: Option<&[usize]>) -> Outcome {
         }
     };
     let cs = calls.lock().unwrap().clone();
+    let finalised_by_library = sh.finalised.load(Ordering::SeqCst);
+    let recovered_now = recovered.load(Ordering::SeqCst);
+    let kept_at_end: usize = stores.iter().map(|s| s.lock().unwrap().len()).sum();
+    let all_done = !unfinished && !run.deadlock && !run.timed_out && cs.iter().zip(progs).all(|(c, p)| c.len() == p.len());
+    let stuck_into_inner = if run.deadlock || unfinished {
+        let mask = in_into_inner.load(Ordering::SeqCst);
+        let pending: Vec<usize> = (0..progs.len()).filter(|t| cs[*t].len() < progs[*t].len()).collect();
+        let inside = sh.inside_now();
+        if !pending.is_empty() && pending.iter().all(|t| mask & (1 << *t) != 0) && inside == 0 && !recovered_now {
+            Some((inside, kept_at_end))
+        } else {
+            None
+        }
+    } else {
+        None
+    };
+    // after the round, the kept handles still held: they are what they were when obtained, and one more emission
+    // through the wrapper is answered according to the state of the recovery handle alone
+    let mut post_use = vec![];
+    let mut post_emit = None;
+    if all_done {
+        for (t, st) in stores.iter().enumerate() {
+            TIDX.with(|x| x.set(t));
+            post_use.push(use_kept(st, &sh, t, 7));
+        }
+        TIDX.with(|x| x.set(0));
+        ARRIVED.with(|a| a.borrow_mut().clear());
+        let probe = Em { method: 4, name: "post".into(), labels: vec![("after".into(), "round".into())], unit: 0, desc: String::new(), meta: 1, val: 3 };
+        post_emit = Some(do_emit(&*wrapped, &probe, &sh, 0, 0, None));
+    }
+    // only now are the kept handles dropped: that must not finalise anything (a kept handle holds no reference)
+    let before = sh.finalised.load(Ordering::SeqCst);
+    for st in &stores {
+        let hs: Vec<KeptH> = std::mem::take(&mut *st.lock().unwrap());
+        drop(hs);
+    }
+    let finalised_by_dropping_kept = sh.finalised.load(Ordering::SeqCst) - before;
     let mis = MISROUTED.lock().unwrap().clone();
     Outcome {
+        stuck_into_inner,
+        kept_at_end,
+        handle_ended: handle_ended.load(Ordering::SeqCst),
+        all_done,
+        post_emit,
+        post_use,
+        finalised_by_dropping_kept,
         calls: cs,
-        finalised_by_library: sh.finalised.load(Ordering::SeqCst),
-        recovered: recovered.load(Ordering::SeqCst),
+        finalised_by_library,
+        recovered: recovered_now,
         recovered_wrong_recorder: wrong.load(Ordering::SeqCst),
         into_inner_panicked: ii_panicked.load(Ordering::SeqCst),
         busy_at_recovery: busy.load(Ordering::SeqCst),
@@ -565,6 +780,25 @@ fn answer(o: &Outcome) -> String {
 
 /// oracles that do not need a trace (scheduled and free-running rounds alike)
 fn oracle_common(out: &mut Out, progs: &[Vec<Step>], o: &Outcome, ctx: &str) -> bool {
+    if let Some((inside, kept)) = o.stuck_into_inner {
+        out.oracle_fail(
+            "into_inner did not return although no emission was executing inside the recorder",
+            &format!(
+                "threads {} (k = registration through the wrapper whose handle the thread keeps): every other thread had finished, calls inside the recorder: {}, metric handles obtained through the wrapper still held: {}; into_inner kept failing ({}); results so far {:?}; {}",
+                progs_tok(progs),
+                inside,
+                kept,
+                if o.run.deadlock { "scheduler: only the thread in into_inner is left and its attempts fail" } else { "free-running: 5 s with nothing else running" },
+                o.results(),
+                ctx
+            ),
+        );
+        if o.finalised_by_dropping_kept != 0 || o.kept_at_end > 0 {
+            out.count("into_inner.stuck.while.handles.kept");
+        }
+        STUCK_ROUNDS.fetch_add(1, Ordering::SeqCst);
+        return false;
+    }
     if o.run.deadlock || o.run.timed_out || !o.run.panicked.is_empty() || o.unfinished {
         out.oracle_fail("recoverable recorder: deadlock, timeout or panic", &format!("{} unfinished={} {:?}", ctx, o.unfinished, o.run.trace));
         return false;
@@ -595,9 +829,33 @@ fn oracle_common(out: &mut Out, progs: &[Vec<Step>], o: &Outcome, ctx: &str) -> 
             &format!("finalised {} want {} {}", o.finalised_by_library, want_final, ctx),
         );
     }
+    if o.finalised_by_dropping_kept != 0 {
+        out.oracle_fail(
+            "the recorder was finalised only when a metric handle kept by a caller was dropped (a kept handle kept the recorder alive)",
+            &format!("threads {}: {} handles kept at the end of the round, dropping them ran the recorder's destructor {} time(s) {}", progs_tok(progs), o.kept_at_end, o.finalised_by_dropping_kept, ctx),
+        );
+    }
+    for (t, pu) in o.post_use.iter().enumerate() {
+        if let Err(e) = pu {
+            out.oracle_fail("a metric handle kept by a caller is not what it was when it was obtained (live stays live, inert stays inert)", &format!("thread {} after the round: {} {}", t, e, ctx));
+        }
+    }
+    if let Some(pe) = o.post_emit {
+        // all threads are done: nobody is inside; what is left are the kept handles
+        if o.handle_ended && pe != "ignored" {
+            out.oracle_fail(
+                if o.recovered { "an emission made after into_inner returned reached the recorder" } else { "handle dropped and nobody inside the recorder any more, yet a later emission reached it" },
+                &format!("emission by the harness after all threads {} were done ({}), {} metric handles still kept by them {}", progs_tok(progs), pe, o.kept_at_end, ctx),
+            );
+        }
+        if !o.handle_ended && pe != "delivered" {
+            out.oracle_fail("an emission made while the recovery handle was alive did not reach the recorder", &format!("emission by the harness after all threads {} were done ({}) {}", progs_tok(progs), pe, ctx));
+        }
+    }
     for (t, cs) in o.calls.iter().enumerate() {
         for (i, c) in cs.iter().enumerate() {
             match c.res.as_str() {
+                "used-misrouted" => out.oracle_fail("a metric handle kept by a caller is not what it was when it was obtained (live stays live, inert stays inert)", &format!("thread {} call {} {:?} {}", t, i, KEPT_ERR.lock().unwrap(), ctx)),
                 "dead-handle" => out.oracle_fail("an emission reached the recorder but the handle returned through the wrapper is inert", &format!("thread {} call {} {}", t, i, ctx)),
                 "live-handle-after-ignore" => out.oracle_fail("an ignored emission returned a handle that is not inert", &format!("thread {} call {} {}", t, i, ctx)),
                 "panic-without-entry" => out.oracle_fail("the wrapper panicked without entering the recorder", &format!("thread {} call {} {}", t, i, ctx)),
@@ -704,15 +962,18 @@ fn gen_progs(r: &mut Rng) -> Vec<Vec<Step>> {
     let mut progs = vec![];
     for t in 0..n {
         let mut p = vec![];
-        let k = r.range(1, 3);
+        let k = r.range(1, 4);
         let end_at = r.below(k + 1);
         for i in 0..=k {
             if t == ender && i == end_at {
                 p.push(st(end_call, r));
             } else if i < k {
-                let c = match r.below(10) {
+                let c = match r.below(16) {
                     0 | 1 => Call::EmitPanic,
                     2 | 3 => Call::EmitNested,
+                    4 | 5 | 6 | 7 => Call::EmitKeep,
+                    8 | 9 => Call::UseKept,
+                    10 => Call::DropKept,
                     _ => Call::Emit,
                 };
                 p.push(st(c, r));
@@ -742,8 +1003,17 @@ fn one(out: &mut Out, progs: &[Vec<Step>], sch: &[usize]) {
             out.count("end.raced.with.emission");
         }
     }
+    if o.kept_at_end > 0 && o.handle_ended {
+        out.count("handles.kept.across.the.end");
+        out.nontrivial();
+    }
     for (t, cs) in o.calls.iter().enumerate() {
         for (i, c) in cs.iter().enumerate() {
+            if progs[t][i].call == Call::UseKept {
+                // written through kept handles after the recovery handle's life ended
+                let after_end = o.handle_ended && cs[..i].iter().any(|p| p.res == "ignored");
+                out.count(&format!("kept.use.{}{}", if c.res.starts_with("used-0-0") { "none-kept" } else if c.res.starts_with("used-0-") { "inert-only" } else { "some-live" }, if after_end { ".after-own-ignored-emission" } else { "" }));
+            }
             if progs[t][i].call.is_emission() {
                 out.count(&format!("emission.{}.{}", prog_tok(&progs[t][i..=i]), c.res));
                 out.count(&format!("method.{}", METHODS[progs[t][i].em.as_ref().unwrap().method]));
@@ -776,7 +1046,7 @@ fn free_round(out: &mut Out, progs: &[Vec<Step>]) {
     let mut ender: Option<(Call, u64, u64)> = None;
     for (t, cs) in o.calls.iter().enumerate() {
         for (i, c) in cs.iter().enumerate() {
-            if !progs[t][i].call.is_emission() {
+            if progs[t][i].call.is_end() {
                 ender = Some((progs[t][i].call, c.t_start, c.t_end));
             }
         }
@@ -950,17 +1220,20 @@ fn gen_free(r: &mut Rng) -> Vec<Vec<Step>> {
         let mut p = vec![];
         if t == 0 {
             for _ in 0..r.below(4) {
-                p.push(st(Call::Emit, r));
+                p.push(st(if r.chance(1, 3) { Call::EmitKeep } else { Call::Emit }, r));
             }
             p.push(st(end_call, r));
-            for _ in 0..r.below(3) {
-                p.push(st(Call::Emit, r));
+            for _ in 0..r.below(4) {
+                p.push(st(*r.pick(&[Call::Emit, Call::Emit, Call::EmitKeep, Call::UseKept, Call::DropKept]), r));
             }
         } else {
             for _ in 0..r.range(8, 40) {
                 let c = match r.below(20) {
                     0 => Call::EmitPanic,
                     1 => Call::EmitNested,
+                    2 | 3 | 4 => Call::EmitKeep,
+                    5 | 6 => Call::UseKept,
+                    7 => Call::DropKept,
                     _ => Call::Emit,
                 };
                 p.push(st(c, r));
@@ -1008,6 +1281,17 @@ fn hold_round(out: &mut Out, r: &mut Rng, target: u64) {
     HOLD_TARGET.store(target, Ordering::SeqCst);
     HOLD_GO.store(false, Ordering::SeqCst);
     let em = gen_em(r);
+    // the harness thread (cells[0]) keeps one handle of each kind for the whole round: across the held emission,
+    // the failed attempts of into_inner and its return
+    let store: KeptStore = Arc::new(Mutex::new(vec![]));
+    TIDX.with(|x| x.set(0));
+    for m in [0usize, 4, 2] {
+        let mut ek = gen_em(r);
+        ek.method = m;
+        if do_emit_keep(&*wrapped, &ek, &sh, 0, &store) != "delivered" {
+            out.oracle_fail("an emission made while the recovery handle was alive did not reach the recorder", "long-hold round: registration whose handle is kept");
+        }
+    }
     let (w2, sh2) = (wrapped.clone(), sh.clone());
     let emitter = std::thread::spawn(move || {
         TIDX.with(|x| x.set(1));
@@ -1046,7 +1330,18 @@ fn hold_round(out: &mut Out, r: &mut Rng, target: u64) {
     let spins = HOLD_SPINS.load(Ordering::SeqCst);
     out.count_n("hold.into_inner.failed.attempts.waited.out", spins);
     if !fin {
-        out.oracle_fail("recoverable recorder: deadlock, timeout or panic", &format!("long-hold round: into_inner or the emission did not finish; attempts {}", spins));
+        if emitter.is_finished() && sh.inside_now() == 0 {
+            // 20 s with nothing executing in the recorder: the next attempt of into_inner must have succeeded
+            out.oracle_fail(
+                "into_inner did not return although no emission was executing inside the recorder",
+                &format!("long-hold round: the held emission left, 3 metric handles obtained through the wrapper are still kept by the harness thread; into_inner still spinning 20 s later after {} attempts", spins),
+            );
+        } else {
+            out.oracle_fail("recoverable recorder: deadlock, timeout or panic", &format!("long-hold round: into_inner or the emission did not finish; attempts {}", spins));
+        }
+        // let a spinning into_inner end: release whatever the kept handles hold
+        store.lock().unwrap().clear();
+        wait_until(|| ender.is_finished(), Duration::from_secs(5));
         return;
     }
     let em_res = emitter.join().unwrap_or("emitter-panicked");
@@ -1070,9 +1365,25 @@ fn hold_round(out: &mut Out, r: &mut Rng, target: u64) {
     if sh.finalised.load(Ordering::SeqCst) != 0 || sh.final_while_inside.load(Ordering::SeqCst) {
         out.oracle_fail("recorder not dropped exactly once after the handle was dropped / dropped although recovered", "long-hold round: finalised by the library although recovered");
     }
+    TIDX.with(|x| x.set(0));
     let after = do_emit(&*wrapped, &gen_em(r), &sh, 0, 0, None);
     if after != "ignored" {
-        out.oracle_fail("an emission made after into_inner returned reached the recorder", &format!("long-hold round: {}", after));
+        out.oracle_fail("an emission made after into_inner returned reached the recorder", &format!("long-hold round: {} (3 kept handles outstanding)", after));
+    }
+    match use_kept(&store, &sh, 0, 11) {
+        Ok((3, 0)) => {}
+        x => out.oracle_fail("a metric handle kept by a caller is not what it was when it was obtained (live stays live, inert stays inert)", &format!("long-hold round, after into_inner returned: {:?}", x)),
+    }
+    let mut ek = gen_em(r);
+    ek.method = 0;
+    let again = do_emit_keep(&*wrapped, &ek, &sh, 0, &store);
+    if again != "ignored" || use_kept(&store, &sh, 0, 5) != Ok((3, 1)) {
+        out.oracle_fail("an emission made after into_inner returned reached the recorder", &format!("long-hold round: registration whose handle is kept: {}", again));
+    }
+    let before = sh.finalised.load(Ordering::SeqCst);
+    store.lock().unwrap().clear();
+    if sh.finalised.load(Ordering::SeqCst) != before {
+        out.oracle_fail("the recorder was finalised only when a metric handle kept by a caller was dropped (a kept handle kept the recorder alive)", "long-hold round");
     }
     out.nontrivial();
 }
@@ -1280,6 +1591,36 @@ fn install_scenario(out: &mut Out, r: &mut Rng) {
     }
     drop(rb);
     drop(wb);
+    // handles obtained through the macros and KEPT (`let c = counter!(..)`) by this thread and by a thread that has
+    // long finished emitting, across the recovery of the installed recorder
+    TIDX.with(|x| x.set(0));
+    ARRIVED.with(|a| a.borrow_mut().clear());
+    let kept_c = metrics::counter!("inst.kept.c", "who" => "main");
+    let kept_g = metrics::gauge!("inst.kept.g");
+    let kept_h = metrics::histogram!("inst.kept.h");
+    ARRIVED.with(|a| a.borrow_mut().clear());
+    let kept_other: Counter = std::thread::spawn(|| {
+        TIDX.with(|x| x.set(5));
+        let c = metrics::counter!("inst.kept.other");
+        c.increment(1);
+        c
+    })
+    .join()
+    .unwrap();
+    let kept_check = |when: &str, out: &mut Out| {
+        let snap = || ([0usize, 1, 2].map(|k| sh1.cells[0][k].0.load(Ordering::SeqCst)), sh1.cells[5][0].0.load(Ordering::SeqCst));
+        let b = snap();
+        kept_c.increment(2);
+        kept_g.increment(3.0);
+        kept_h.record(4.0);
+        kept_other.increment(6);
+        let a = snap();
+        let d = ([a.0[0] - b.0[0], a.0[1] - b.0[1], a.0[2] - b.0[2]], a.1 - b.1);
+        if d != ([2, 3, 4], 6) {
+            out.oracle_fail("a metric handle kept by a caller is not what it was when it was obtained (live stays live, inert stays inert)", &format!("handles obtained through the macros from the installed wrapper, {}: cells moved {:?}, want ([2, 3, 4], 6)", when, d));
+        }
+    };
+    kept_check("while the recovery handle is alive", out);
     // recovery of the installed recorder while threads emit through the macros
     let stop = Arc::new(AtomicBool::new(false));
     let ems: Vec<_> = (1..4usize)
@@ -1304,13 +1645,23 @@ fn install_scenario(out: &mut Out, r: &mut Rng) {
         let inside = sh1c.inside.load(Ordering::SeqCst);
         (rec, inside)
     });
-    let fin = wait_until(|| rec_t.is_finished(), Duration::from_secs(20));
+    // under load into_inner "may block for an indefinite amount of time": 10 s with the emitters running, then
+    // they are stopped and nothing is executing in the recorder any more — the next attempt succeeds; 10 s more is
+    // a margin of six orders of magnitude over one `Arc::try_unwrap`
+    let in_time = wait_until(|| rec_t.is_finished(), Duration::from_secs(10));
     stop.store(true, Ordering::SeqCst);
     for e in ems {
         let _ = e.join();
     }
-    if !fin {
-        out.oracle_fail("recoverable recorder: deadlock, timeout or panic", "into_inner of the installed recorder did not return within 20 s after install (strong reference leaked?)");
+    if !in_time {
+        out.count("install.into_inner.needed.the.emitters.stopped");
+    }
+    if !wait_until(|| rec_t.is_finished(), Duration::from_secs(10)) {
+        out.oracle_fail(
+            "into_inner did not return although no emission was executing inside the recorder",
+            &format!("installed recorder: all emitting threads have ended (calls inside the recorder: {}), four metric handles obtained through the macros are still kept (let c = counter!(..)); into_inner still spinning 10 s later (strong reference leaked?)", sh1.inside_now()),
+        );
+        // kept handles go out of scope here; whatever they held is released and a spinning into_inner can end
         return;
     }
     match rec_t.join() {
@@ -1325,6 +1676,15 @@ fn install_scenario(out: &mut Out, r: &mut Rng) {
             for b in macro_probe(&sh1, 0, false) {
                 out.oracle_fail("an emission made after into_inner returned reached the recorder", &format!("through the macros: {}", b));
             }
+            // the handles kept from before the recovery are still the recorder's; a new one is inert
+            kept_check("after into_inner returned", out);
+            let b = sh1.cell_sum();
+            let late_c = metrics::counter!("inst.kept.c", "who" => "main");
+            late_c.increment(9);
+            if sh1.cell_sum() != b || ARRIVED.with(|a| !a.borrow().is_empty()) {
+                out.oracle_fail("an emission made after into_inner returned reached the recorder", "counter!(..) kept in a variable after the recovery: live handle");
+            }
+            ARRIVED.with(|a| a.borrow_mut().clear());
             drop(rec);
             if sh1.finalised.load(Ordering::SeqCst) != 1 || sh1.entered_after_final.load(Ordering::SeqCst) || sh1.final_while_inside.load(Ordering::SeqCst) {
                 out.oracle_fail("a call entered the recorder after its finalisation began", "installed recorder after recovery and drop by its owner");
@@ -1350,6 +1710,13 @@ pub fn run(cfg: &Cfg, out: &mut Out) {
         (plain(&[&[EmitNested], &[IntoInner], &[Emit]]), vec![0, 1, 2, 0, 1, 0, 1, 2, 0, 1, 0, 1, 1, 2, 2]),
         (plain(&[&[EmitNested], &[DropHandle]]), vec![0, 1, 0, 1, 0, 0, 0, 0]),
         (plain(&[&[EmitPanic], &[DropHandle], &[EmitNested]]), vec![0, 1, 2, 0, 1, 2, 2, 2, 0, 2]),
+        // handles KEPT across the end of the recorder's life: into_inner with a kept handle outstanding, then the
+        // keeper writes through it, registers again (inert), drops them; the same with a handle drop; a handle kept
+        // while another thread is inside when the handle is dropped
+        (plain(&[&[EmitKeep, UseKept, EmitKeep, UseKept, DropKept, Emit], &[IntoInner]]), vec![0, 0, 0, 1, 1, 0, 0, 0, 0, 0]),
+        (plain(&[&[EmitKeep], &[DropHandle], &[EmitKeep, UseKept]]), vec![0, 0, 0, 1, 1, 2, 2, 2]),
+        (plain(&[&[EmitKeep, Emit, UseKept], &[IntoInner, Emit], &[EmitKeep, DropKept, Emit]]), vec![0, 1, 2, 0, 2, 1, 1, 2, 0, 1, 2, 2, 0, 0, 1, 1, 2]),
+        (plain(&[&[Emit, UseKept], &[EmitKeep, DropHandle, Emit, UseKept, DropKept]]), vec![0, 1, 0, 1, 1, 1, 0, 1, 1, 0, 1, 1]),
     ];
     for (progs, sch) in corpus {
         out.case("corpus");
@@ -1367,18 +1734,19 @@ pub fn run(cfg: &Cfg, out: &mut Out) {
             }
             sch.push(cur);
         }
-        out.count(&format!("threads={} end={:?}", progs.len(), progs.iter().flatten().map(|c| c.call).find(|c| !c.is_emission())));
+        out.count(&format!("threads={} end={:?}", progs.len(), progs.iter().flatten().map(|c| c.call).find(|c| c.is_end())));
         one(out, &progs, &sch);
     }
     // free-running rounds (no scheduler)
     let rounds = if cfg.thorough { cfg.cases * 2 } else { cfg.cases };
     let base = out.n_oracle_fail;
+    let stuck0 = STUCK_ROUNDS.load(Ordering::SeqCst);
     for i in 0..rounds {
         let mut r = root.fork(2_000_000 + i as u64);
         out.case(&format!("free seed={} i={}", cfg.seed, i));
         let progs = gen_free(&mut r);
         free_round(out, &progs);
-        if out.n_oracle_fail > base + 20 {
+        if out.n_oracle_fail > base + 20 || STUCK_ROUNDS.load(Ordering::SeqCst) > stuck0 + 2 {
             break;
         }
     }
@@ -1416,6 +1784,8 @@ pub fn run(cfg: &Cfg, out: &mut Out) {
             plain(&[&[EmitNested], &[IntoInner], &[Emit]]),
             plain(&[&[EmitNested], &[DropHandle], &[EmitPanic]]),
             plain(&[&[EmitPanic, Emit], &[IntoInner, Emit]]),
+            plain(&[&[EmitKeep, UseKept, Emit], &[IntoInner], &[EmitKeep]]),
+            plain(&[&[EmitKeep, DropKept], &[DropHandle, Emit], &[EmitKeep, UseKept]]),
         ];
         for progs in configs {
             let mut prefix: Vec<usize> = vec![];
